@@ -88,6 +88,7 @@ def main(argv: List[str]) -> int:
     ap.add_argument("--jobs", type=int, default=int(os.environ.get("VERIF_JOBS", "0")) or ncpu())
     ap.add_argument("--scale", type=float, default=float(os.environ.get("VERIF_SCALE", "1")))
     ns = ap.parse_args(argv)
+    os.environ['VERIF_TIER_EFFECTIVE'] = 'replay' if ns.replay else ns.tier   # read by property modules at import (bounds that differ by tier)
     prop = ns.prop.upper()
     try:
         seed = int(os.environ.get("VERIF_SEED", "1"))
